@@ -14,7 +14,7 @@ from .comb import comb_task, zx, sx
 
 import py4hw
 from py4hw.logic.arithmetic import (Add, SignedAdd, AddCarryIn, Abs, Neg, Sign, SignExtend, ZeroExtend, Mul,
-                                    SignedMul, Div, Mod, SignedDiv, Sub, SignedSub, ShiftRight, ShiftLeft,
+                                    SignedMul, Div, Mod, SignedDiv, Sub, SubBorrowIn, SignedSub, ShiftRight, ShiftLeft,
                                     RotateRight, RotateLeft, BinaryToBCD, CountLeadingZeros)
 from py4hw.logic.bitwise import (ShiftLeftConstant, ShiftRightConstant, RotateLeftConstant, RotateRightConstant)
 
@@ -110,9 +110,19 @@ def cfgs(tier):
         n = max(aw, bw, rw) + 2
         return z3.Extract(rw - 1, 0, sx(a, n) / sx(b, n))       # bvsdiv truncates toward zero
 
+    def subbi_cfg(aw, bw, rw):
+        def build(s):
+            a, b, r, bi = W(s, 'a', aw), W(s, 'b', bw), W(s, 'r', rw), W(s, 'bi', 1)
+            SubBorrowIn(s, 'dut', a, b, r, bi)
+            return {'a': a, 'b': b, 'bi': bi}, {'r': r}
+        n = max(aw, bw, rw) + 2
+        return {'build': build, 'spec': lambda V: {'r': z3.Extract(rw - 1, 0, zx(V['a'], n) - zx(V['b'], n) - zx(V['bi'], n))}}
+
     nz = lambda a, b: b != 0
     for aw, bw, rw in mixed + [(w, w, w) for w in big]:
         yield 'Sub a%d b%d r%d' % (aw, bw, rw), bin_cfg(Sub, aw, bw, rw, f_sub)
+        if rw >= aw and (aw == bw or not quick):
+            yield 'SubBorrowIn a%d b%d r%d' % (aw, bw, rw), subbi_cfg(aw, bw, rw)
         yield 'Mul a%d b%d r%d' % (aw, bw, rw), bin_cfg(Mul, aw, bw, rw, f_mul)
         yield 'SignedMul a%d b%d r%d' % (aw, bw, rw), bin_cfg(SignedMul, aw, bw, rw, f_smul)
         if rw >= aw and rw >= bw:
